@@ -387,9 +387,10 @@ AddTail ==
     /\ stop' = TRUE
     /\ UNCHANGED <<frames, rs, cfg, es>>
 
-Emit1 ==
-    /\ Mode \in {"emitnew", "emitold"}
-    /\ EmitFrame(IF Mode = "emitnew" THEN "new" ELSE "old")
+EmitNew == EmitFrame("new")     \* the current stream layer + writer
+EmitOld == EmitFrame("old")     \* the v0.0.17 stream layer + writer
+
+Emit1 == (Mode = "emitnew" /\ EmitNew) \/ (Mode = "emitold" /\ EmitOld)
 
 Next == AddFrame \/ AddTail \/ Emit1
 
